@@ -18,6 +18,8 @@ type ShardSystem struct {
 	Battery  func(s *ShardSystem)
 	KeyFn    func(s *ShardSystem) string
 	terminal bool
+	// Applied lists the operations that succeeded so far.
+	Applied []Op
 	// PostOp, when set, runs after every successful operation (e.g. to run a
 	// lock-step twin); it may return violations.
 	PostOp func(s *ShardSystem, op Op) []V
@@ -51,6 +53,9 @@ func (s *ShardSystem) Apply(raw json.RawMessage) []seqx.Viol {
 	if sig, detail := LateViolation(op, got); sig != "" {
 		return []seqx.Viol{{Sig: sig, Detail: detail}}
 	}
+	if got.Err == nil {
+		s.Applied = append(s.Applied, op)
+	}
 	if got.Err != nil && len(op.Ids) > 1 && hasIndexes(s.In) {
 		// Known defect class F4: goroutines of a failed multi-point batch may
 		// outlive it and leak a cache write lock; what happens on this instance
@@ -73,6 +78,16 @@ func (s *ShardSystem) Apply(raw json.RawMessage) []seqx.Viol {
 		}
 	}
 	return nil
+}
+
+// InsertOnly reports whether only insert batches succeeded so far.
+func (s *ShardSystem) InsertOnly() bool {
+	for _, o := range s.Applied {
+		if o.Kind != "ins" && o.Kind != "reopen" && o.Kind != "noop" && len(o.Ids) > 0 {
+			return false
+		}
+	}
+	return true
 }
 
 // Check implements seqx.System.
